@@ -3,7 +3,8 @@
     Sio/Decoder.v (Add / addBuffer / decode / placeholder lookup).  The library calls
     (strconv.ParseUint, json.Unmarshal in its three uses) are universally quantified functions:
     nothing is assumed about their answers. *)
-From SioV Require Import Base.GoSem Sio.Header Sio.HeaderProofs Sio.Decoder Sio.DecoderProofs.
+From SioV Require Import Base.GoSem Sio.Header Sio.HeaderProofs Sio.Decoder Sio.DecoderProofs
+  Sio.DecoderDispatch Sio.DecoderDispatchProofs.
 Local Open Scope Z_scope.
 
 (** parseHeader never panics: for every byte string and whatever ParseUint and the JSON library
@@ -71,6 +72,39 @@ Theorem C10_accepted_count_nonnegative : forall puint unm data h buf name,
   parse_header_with puint unm data = Ok (h, buf, name) ->
   0 <= h_att h < two63z /\ (is_binary (h_type h) = false -> h_att h = 0).
 Proof. exact parse_header_att. Qed.
+
+(** Dispatch layer (server connection): no frame sequence makes the dispatch panic ... *)
+Theorem C10_dispatch_no_panic : forall puint unm unmarshal max_att frames st socks,
+  on_messages puint unm unmarshal max_att st socks frames <> Panic.
+Proof. exact on_messages_no_panic. Qed.
+
+(** ... and every frame is answered according to what the decoder said: Add failed => every
+    socket of this connection has its error handlers run and the connection is closed; more
+    frames needed => nothing; packet finished => the per-packet dispatch, which never fails. *)
+Theorem C10_error_is_reported : forall puint unm unmarshal max_att st socks data,
+  exists st' o reps,
+    add puint unm max_att st data = Ok (st', o) /\
+    on_message puint unm unmarshal max_att st socks data = Ok (st', reps) /\
+    match o with
+    | Failed => reps = fatal socks
+    | NeedMore => reps = []
+    | Finished r => on_finish unmarshal socks r = Ok reps
+    end.
+Proof. exact on_message_spec. Qed.
+
+Theorem C10_fatal_reaches_every_socket_and_closes : forall socks,
+  In RepClose (fatal socks) /\ forall s, In s socks -> In (RepError (s_nsp s)) (fatal socks).
+Proof. exact fatal_spec. Qed.
+
+(** An event packet for a joined namespace: each registered handler is either called with the
+    decoded values or, when decoding for its parameter types fails, the error handlers of that
+    socket (and of no other) run - one report per handler, none dropped. *)
+Theorem C10_decode_error_goes_to_error_handlers : forall unmarshal socks r s,
+  find_sock socks (packet_nsp (r_header r)) = Some s ->
+  is_event (h_type (r_header r)) = true ->
+  exists reps, on_finish unmarshal socks r = Ok reps /\
+    Forall2 (handler_report unmarshal (s_nsp s) (r_name r) r) (s_handlers s (r_name r)) reps.
+Proof. exact on_finish_event. Qed.
 
 (** Witnesses (the inputs on which the code before the fixes panicked or wedged). *)
 Example C10_ex_namespace_without_comma :            (* 0/abc *)
